@@ -13,6 +13,7 @@ recorded from the real Path objects and validated by TLC (spec/Trace_C18.tla) ag
 sequence operators; random longer expressions are round-tripped and their evaluation validated by
 spec/Trace_C02.tla.
 """
+import json
 import pickle
 import random
 
@@ -240,7 +241,10 @@ def check_expr(st, out):
                 continue
             if isinstance(x, Path) and isinstance(w, Path) and (x == w or not (x != w)):
                 return '%s == %s although their roots differ' % (r, safe_repr(w))
-    if isinstance(x, Path) and not (x == build_expr(root, ops, heap)):
+    # (steps holding a nested T argument compare by the identity of that argument, like the tuple of steps
+    # does: two separately built copies are then different values, which is not checked here)
+    nested = any(isinstance(o.get('arg'), dict) and 'ops' in o['arg'] for o in ops) or 'ops' in json.dumps(ops)
+    if isinstance(x, Path) and not nested and not (x == build_expr(root, ops, heap)):
         return '%s is not equal to a Path built from the same steps' % r
     if root == 'T':
         modelled = not _has(ops, lambda o, ae: o is not None and o['op'] == '.' and o['arg']['s'].startswith('__'))
